@@ -387,6 +387,32 @@ class _PushNot(ast.NodeTransformer):
             return ast.copy_location(ast.Compare(left=c.left, ops=[_COMPL[type(c.ops[0])]()], comparators=c.comparators), node)
         return node
 
+    def visit_Call(self, node):
+        # `list()` / `dict()` / `tuple()` without argument are the empty displays
+        self.generic_visit(node)
+        if isinstance(node.func, ast.Name) and not node.args and not node.keywords:
+            if node.func.id == "list":
+                self.n += 1
+                return ast.copy_location(ast.List(elts=[], ctx=ast.Load()), node)
+            if node.func.id == "dict":
+                self.n += 1
+                return ast.copy_location(ast.Dict(keys=[], values=[]), node)
+            if node.func.id == "tuple":
+                self.n += 1
+                return ast.copy_location(ast.Tuple(elts=[], ctx=ast.Load()), node)
+        return node
+
+    def visit_Assign(self, node):
+        # `t = t + e` / `t = t - e` is written `t += e` / `t -= e` (the repository's own idiom for accumulators)
+        self.generic_visit(node)
+        if len(node.targets) == 1 and isinstance(node.value, ast.BinOp) and isinstance(node.value.op, (ast.Add, ast.Sub)) \
+                and isinstance(node.targets[0], (ast.Name, ast.Attribute, ast.Subscript)):
+            t = node.targets[0]
+            if _unparse(node.value.left) == _unparse(t):
+                self.n += 1
+                return ast.copy_location(ast.AugAssign(target=t, op=node.value.op, value=node.value.right), node)
+        return node
+
 
 def normalise_module(tree, module_name: str) -> int:
     pn = _PushNot()
